@@ -159,6 +159,9 @@ func memberKey(m ssa.Value) (ssa.Value, ssa.Value, string) {
 						}
 					}
 				}
+				if rg, ok := t.Iter.(*ssa.Range); ok {
+					return rg.X, nil, "range" // key discarded
+				}
 			}
 		}
 	case *ssa.Lookup:
